@@ -1,6 +1,6 @@
 (* C16 — executable model of valjean/cosette/rlist.py (RList) and
    valjean/cosette/depgraph.py (DepGraph) as they are in /repo after the fix
-   commits 3f34351 (graft of an empty sub-graph) and be7c21f (<= by identity).
+   commits 3f34351 + 284a47d (graft of an empty sub-graph) and be7c21f (<= by identity).
 
    Nodes are identities: a node is its key (Python: id(obj)), a [nat].
    Even keys are plain nodes; the odd key 2r+1 is the graph object held in
@@ -416,7 +416,7 @@ Definition graft (g : cgraph) (s : key) (sub : cgraph) : res cgraph :=
   do g3 <- foldM (fun g dep => foldM (fun g term => add_dependency g term dep) terms g) deps g2;
   do g4 <- foldM (fun g dee => foldM (fun g init => add_dependency g dee init) inits g) dees g3;
   if glen sub =? 0 then
-    foldM (fun g dee => foldM (fun g dep => if (dee =? s) || (dep =? s) then Ok g
+    foldM (fun g dee => foldM (fun g dep => if (dee =? s) || (dep =? s) || (dee =? dep) then Ok g
                                             else add_dependency g dee dep) deps g) dees g4
   else Ok g4.
 
